@@ -257,11 +257,11 @@ PROFILE = {
     'settle': [True, True, False],
     'connect_outcomes': [None, None, None, None, None, ['ret', rm.tag(False)],
                          ['ret', rm.tag(0)], ['ret', rm.tag('no')], ['ret', rm.tag({'e': 1})],
-                         ['ret', rm.tag([1])], ['raise'], ['ret', rm.tag(True)],
+                         ['ret', rm.tag([1])], ['raise'], ['raise', 'TypeError'], ['ret', rm.tag(True)],
                          ['ret', rm.tag('')]],
     'disconnect_all_pct': 2,
     'world_kw_st': st.fixed_dictionaries({
-        'legacy_disconnect': st.sampled_from([False, False, True]),
+        'legacy_disconnect': st.sampled_from([False, False, True, 'varargs']),
         # real timers fire late, never exactly on time: a quarter tick of lateness on every
         # timed wait (the exact virtual clock would otherwise sit on every '>' boundary)
         'timer_jitter': st.sampled_from([0.0, 0.0, 2.0 ** -12]),
